@@ -31,7 +31,12 @@ ASSUMPTIONS = [
 ]
 
 LETTERS_SP = [["read"], ["assign", 5], ["assign", 7], ["assign", None], ["assign", "x"], ["delete"], ["state", 2], ["state", 3], ["state", "bad"]]
-HOSTS = ["plain", "spec_unmanaged", "spec_managed", "spec_managed_prep"]
+HOSTS = ["plain", "spec_unmanaged", "spec_managed", "spec_managed_prep",
+         # the property is inherited (from a spec parent that does not manage it / from a plain mixin) and it is the
+         # spec subclass that declares the managed annotation and the preparer
+         "inh_managed_prep", "mixin_managed"]
+MANAGED = ("spec_managed", "spec_managed_prep", "inh_managed_prep", "mixin_managed")
+PREPARED = ("spec_managed_prep", "inh_managed_prep")
 CLEAN = (AttributeError, TypeError, ValueError)
 
 _CLS_CACHE = {}
@@ -61,11 +66,17 @@ def sp_host(cfg):
                          overridable=cfg["overridable"], cache=cfg["cache"])
     ns = {"base": 1, "p": prop}
     host = cfg["host"]
-    if host in ("spec_managed", "spec_managed_prep"):
+    bases = ()
+    if host in ("inh_managed_prep", "mixin_managed"):
+        parent = type("B", (), ns)
+        if host == "inh_managed_prep":
+            parent = spec_class(bootstrap=bool(cfg.get("eager", True)))(parent)
+        bases, ns = (parent,), {}
+    if host in MANAGED:
         ns["__annotations__"] = {"p": int}
-    if host == "spec_managed_prep":
+    if host in PREPARED:
         ns["_prepare_p"] = lambda self, v: _prep(v)
-    cls = type("H", (), ns)
+    cls = type("H", bases, ns)
     if host != "plain":
         cls = spec_class(bootstrap=bool(cfg.get("eager", True)))(cls)
     _CLS_CACHE[key] = cls
@@ -81,8 +92,8 @@ def run_sp(ctx, case):
     cls = sp_host(cfg)
     obj = cls()
     host = cfg["host"]
-    managed = host in ("spec_managed", "spec_managed_prep")
-    prep = _prep if host == "spec_managed_prep" else (lambda v: v)
+    managed = host in MANAGED
+    prep = _prep if host in PREPARED else (lambda v: v)
     base, slot = 1, None  # slot: None | ("override"|"cache", value)
     after_change = nontrivial = False
     tagbase = f"sp:{host}"
